@@ -5,3 +5,4 @@ import AcryoVerif.Props.C08
 import AcryoVerif.Props.C16
 import AcryoVerif.Props.C05
 import AcryoVerif.Props.C04
+import AcryoVerif.Props.C07
